@@ -591,6 +591,40 @@ def rule_g(model, rep):
     ok = "if dryrun" in txt or "not dryrun" in txt
     rep.check(ok, R, site("passlib.utils", "update_mixin_classes"), "dryrun guard", "mixin swap honours dryrun")
     rep.minimum(R, 8)
+    # a function that receives `dryrun` hands it on to every callee that takes one
+    RF = "C03.g-dryrun-forwarded"
+    takers = {}
+    for un, unit in model.units.items():
+        if not un.startswith("passlib."):
+            continue
+        for q, fn in unit.functions():
+            if "dryrun" in params(fn):
+                takers.setdefault(q.split(".")[-1], []).append((un, q, fn))
+    nf = 0
+    for name, lst in takers.items():
+        for un, q, fn in lst:
+            for node in walk_no_nested(fn):
+                if not isinstance(node, ast.Call):
+                    continue
+                callee = node.func.attr if isinstance(node.func, ast.Attribute) else (node.func.id if isinstance(node.func, ast.Name) else None)
+                if callee not in takers or callee == "loader":
+                    continue
+                cun, cq, cfn = takers[callee][0]
+                cparams = params(cfn)
+                if "." in cq and isinstance(node.func, ast.Attribute) and not any(ast.unparse(d) == "staticmethod" for d in cfn.decorator_list):
+                    cparams = cparams[1:]  # bound receiver
+                idx = cparams.index("dryrun")
+                kw = {k.arg: k.value for k in node.keywords}
+                passed = kw.get("dryrun")
+                if passed is None and len(node.args) > idx and not any(a.arg == "dryrun" for a in cfn.args.kwonlyargs):
+                    passed = node.args[idx]
+                nf += 1
+                ok = passed is not None and ast.unparse(passed) in ("dryrun", "dryrun=dryrun")
+                rep.check(ok, RF, site(un, q), f"{ast.unparse(node)[:90]}  # dryrun={'<default>' if passed is None else ast.unparse(passed)}",
+                          f"`{q}` received dryrun and calls `{callee}`, which takes one: the flag is handed on unchanged",
+                          witness="has_backend(X) (a dry run) swaps the implementation / mixin classes while get_backend() still reports the old backend")
+    if nf < 3:
+        rep.undecided(RF, "<instance-count>", f"only {nf} dryrun-forwarding call sites found, expected at least 3")
 
 
 # ----------------------------------------------------------------------------- C03.h / C03.i
@@ -744,3 +778,6 @@ def run(model, rep):
     rule_f(model, rep)
     rule_g(model, rep)
     rule_hi(model, rep)
+    # the builtin sha1-crypt / pbkdf2 backends agree with crypt(3) only if the HMAC they are built on is RFC 2104's
+    from . import prim
+    prim.rule_hmac(model, rep, "C03.j-builtin-hmac")
